@@ -231,10 +231,12 @@ def instances(tier):
             Inst("edges_ignore_switches", make_flags(min(nf, 9), False), nvars=14, samples=6, max_paths=5000, meta=dict(part="edges", respect_switches=False, flags=min(nf, 9)))]
     opts = {"nogobus2": dict(nogobuses=[2]), "notravbus2": dict(notravbuses=[2]), "no_trafos": dict(include_trafos=False),
             "only_line1_no_trafo3w": dict(include_lines=[1], include_trafo3ws=False), "out_of_service_included": dict(include_out_of_service=True),
-            "no_bus_switches_no_impedances": dict(include_switches=False, include_impedances=False)}
+            "no_bus_switches_no_impedances": dict(include_switches=False, include_impedances=False),
+            "nogobus3_listed_before_notravbus2": dict(nogobuses=[3], notravbuses=[3, 2]),
+            "notravbuses_3_then_2": dict(notravbuses=[3, 2])}
     for nm, o in opts.items():
-        if tier == "thorough" or nm in ("nogobus2", "out_of_service_included"):
-            k = 6 if tier == "quick" else 9
+        if tier == "thorough" or nm in ("nogobus2", "out_of_service_included", "nogobus3_listed_before_notravbus2"):
+            k = 6 if tier == "quick" else (10 if nm == "notravbuses_3_then_2" else 9)     # bus3_in_service is the 10th flag
             out.append(Inst(f"edges_option_{nm}", make_flags(k, True, o), nvars=14, samples=4, max_paths=5000, meta=dict(part="edges", options=str(o), flags=k)))
     if tier == "thorough":
         out += [Inst(f"double_mesh_from{s}", make_fn("double_mesh", s), nvars=12, samples=3, max_paths=5000, meta=dict(topology="double_mesh", source=s)) for s in (1, 2, 3)]
@@ -244,4 +246,4 @@ def instances(tier):
 LEVEL_TEXT = ("Bounded model checking of the distance clause: the real create_nxgraph and calc_distance_to_bus (networkx Dijkstra in pure "
               "Python) run with symbolic line lengths; on every feasible ordering of path lengths z3 shows the returned distance is a lower "
               "bound of every simple path and equal to one of them, and that each edge weight is its line's length.")
-LEVEL_NOTE = ("Trusted: networkx' graph data structure on concrete node ids; z3. Bounds: <= 4 buses, <= 5 lines, everything in service.")
+LEVEL_NOTE = ("Trusted: networkx' graph data structure on concrete node ids; z3. The edge-set instances additionally run create_nxgraph on a net with every element kind, symbolic in_service / closed flags and every respect_switches / include_* / notravbuses option, against the stated edge rule. Bounds: <= 4 buses, <= 5 lines for distances; one element of each kind (two trafo3w) for edges.")
